@@ -15,6 +15,7 @@ LAYOUTS = {
   1: [('m1',), ('d/m1',), ('d/e/m1',)],
   2: [('m1', 'm2'), ('d/m1', 'm2'), ('d/m', 'e/m'), ('d/e/m', 'f/e/m'), ('d/m', 'm'), ('d/e/m', 'e/m')],
   3: [('m1', 'm2', 'm3'), ('d/m', 'e/m', 'm3'), ('d/m', 'e/m', 'm'), ('d/e/m', 'd/f/m', 'e/f/m'), ('d/m1', 'd/m2', 'e/m1')],
+  4: [('m1', 'm2', 'm3', 'm4'), ('d/m', 'e/m', 'f/m', 'g/m'), ('d/e/m', 'd/f/m', 'e/f/m', 'e/d/m')],
 }
 
 
@@ -205,7 +206,8 @@ def run_negative(name, files, main, tmp, stats, bad):
 
 def plan(ctx):
   impl.setup(ctx.repo); parsers.setup_cpp()
-  gs = list(graphs(3 if ctx.thorough else 3))
+  gs = list(graphs(4 if ctx.thorough else 3))
+  if ctx.thorough: gs = [g for g in gs if g['n'] < 4 or (g['roots'] == 1 and not g['all_alias'])]
   if not ctx.thorough:
     gs = [g for g in gs if g['n'] <= 2 or (not g['all_alias'] and g['roots'] == 1) or g['layout'] == LAYOUTS[3][2]]
   tasks = [('graphs', sh) for sh in explore.shards(gs, 96)]
@@ -245,7 +247,7 @@ def coverage(ctx, merged):
     samples=merged['samples'], exhaustive=True, evaluations=s.get('parses', 0), distinct_nontrivial=len(merged['keys'].get('states', ())),
     rule='state = one import graph (modules, import edges, main imports, directory layout, roots, alias choice) written to a scratch tree; transition = one parse / one execution; distinct_nontrivial = distinct sets of predicate prefixes allocated by the parsers',
     import_graphs=s.get('graphs', 0), negative_graphs=s.get('negative', 0), distinct_prefix_allocations=len(merged['keys'].get('states', ())),
-    bounds=dict(modules=3, layouts={k: list(v) for k, v in LAYOUTS.items()}, roots=[1, 2], parsers=['PY', 'CPP']), cap_hit=False)
+    bounds=dict(modules=4 if ctx.thorough else 3, layouts={k: list(v) for k, v in LAYOUTS.items()}, roots=[1, 2], parsers=['PY', 'CPP']), cap_hit=False)
 
 
 def replay(ctx, case):
